@@ -24,6 +24,7 @@ import (
 
 func init() {
 	engines["totality"] = engineTotality
+	engines["totality-cli"] = engineTotalityCLI
 	c10HostileStrings = append(c10HostileStrings, vlib.OddCaseWords...) // case mappings that change the encoded length
 }
 
@@ -509,6 +510,74 @@ func c10DictQueries(ctx *Ctx, r *rand.Rand, budget time.Duration) {
 				}
 			}
 			ctx.R.Nontriv("dict", q)
+		}
+	}
+}
+
+// engineTotalityCLI: the built binary loading generated well-formed (and damaged) files and answering queries in every output
+// format, verbose or not: a normal exit, no panic, no signal, whatever texts the entries hold (wide, combining, multi-byte,
+// control characters).
+func engineTotalityCLI(ctx *Ctx) {
+	r := vlib.NewRand(ctx.Seed, ctx.Shard, "totality-cli")
+	n := ctx.N(256, 6400)
+	base := filepath.Join(ctx.Scratch, "c10cli")
+	h := NewHome(base)
+	defer os.RemoveAll(base)
+	wide := []string{"日本語のコマンド名はとても長いですがルーンの数は少ないです", "файловая-система-команда-для-поиска-и-замены-текста", "αρχείο-συμπίεσης-και-αποσυμπίεσης-δεδομένων",
+		"emoji 😀😀😀😀😀😀😀😀😀😀😀😀😀😀😀😀😀😀 tool", "e\u0301\u0301\u0301\u0301 combining marks e\u0301e\u0301e\u0301e\u0301e\u0301e\u0301e\u0301e\u0301e\u0301e\u0301e\u0301e\u0301e\u0301e\u0301e\u0301", "ＦＵＬＬ　ＷＩＤＴＨ　ｃｏｍｍａｎｄ　ｎａｍｅ　ｈｅｒｅ　ｘｙｚ",
+		"żółć gęślą jaźń zażółć gęślą jaźń ąęśćżź", "tab\there\tand\tthere", "\u202eright-to-left override text here for the table", strings.Repeat("é", 46), strings.Repeat("ab", 23) + "é"}
+	for k := 0; k < n; k++ {
+		f := c10GenFile(r, []int{0, 1, 10, 11, 0, 1, 6, 7}[k%8])
+		var words []string
+		if f.Expected != nil {
+			e := append([]vlib.Cmd(nil), f.Expected...)
+			// texts whose byte length and character count are far apart, in the fields the formats cut or align
+			for i := 0; i < 1+r.Intn(3) && len(e) > 0; i++ {
+				j := r.Intn(len(e))
+				w := wide[r.Intn(len(wide))]
+				switch r.Intn(4) {
+				case 0:
+					e[j].Command = w
+				case 1:
+					e[j].Command = w + " " + e[j].Command
+				case 2:
+					e[j].Niche = w
+				default:
+					e[j].Description = w + " " + e[j].Description
+				}
+				e[j].Keywords = append(append([]string(nil), e[j].Keywords...), "findme")
+			}
+			f.Content = c10Emit(e, k%2 == 0)
+			words = vlib.DBWords(e)
+		}
+		p := filepath.Join(base, "db.yml")
+		os.WriteFile(p, f.Content, 0o644)
+		for _, format := range []string{"list", "table", "json"} {
+			q := "findme"
+			if len(words) > 0 && r.Intn(2) == 0 {
+				q = vlib.GenQuery(r, words, 1+r.Intn(2), []int{0, 0, 2}[r.Intn(3)])
+			}
+			if strings.TrimSpace(q) == "" || strings.ContainsAny(q, "<>|&;$\x00") {
+				q = "findme"
+			}
+			args := []string{"--database", p, "--format", format, "--limit", fmt.Sprint([]int{1, 5, 50}[r.Intn(3)]), "--all-platforms"}
+			if r.Intn(2) == 0 {
+				args = append(args, "-v")
+			}
+			args = append(args, "--", q)
+			cs := map[string]interface{}{"class": f.Class, "file_hex": fmt.Sprintf("%x", vlib.Trunc(string(f.Content), 1500)), "args_quoted": fmt.Sprintf("%q", args)}
+			ctx.R.Begin(cs)
+			ctx.R.Eval(1)
+			res := h.Wtf(ctx.Wtf, nil, args...)
+			ctx.R.Path("cli-runs-"+format, 1)
+			if strings.Contains(res.Stdout, "Found ") || strings.Contains(res.Stdout, "\"command\"") {
+				ctx.R.Path("cli-runs-with-results", 1)
+				ctx.R.Nontriv("cli", string(f.Content), format, q)
+			}
+			if bad, why := res.Crashed(); bad {
+				ctx.R.Violate(vlib.Violation{Property: "C10", Clause: "panic", Path: "wtf search/" + format, Detail: "the binary did not end normally: " + why,
+					Witness: map[string]interface{}{"case": cs, "stderr": vlib.Trunc(res.Stderr, 1500)}})
+			}
 		}
 	}
 }
